@@ -297,7 +297,8 @@ CHECKS["C13"] = {
 
 def c16_jobs(tier):
     jobs = []
-    shapes = [(2, 1, 4, 3), (2, 2, 3, 2)] if tier == "quick" else [(2, 1, 6, 4), (2, 2, 4, 3), (3, 1, 4, 2), (3, 2, 3, 2)]
+    # three pairs: only the tiny coordinate ranges finish (3,1,2,2 does not within 1200 s; measured)
+    shapes = [(2, 1, 4, 3), (2, 2, 3, 2)] if tier == "quick" else [(2, 1, 6, 4), (2, 2, 4, 3), (2, 2, 6, 4), (2, 1, 9, 6), (3, 1, 1, 1), (3, 1, 1, 2), (3, 2, 1, 1), (3, 1, 2, 1)]
     for (p, l, ms, ml) in shapes:
         jobs.append({"pkgdir": "align/pals", "func": "VerifC16_Piles", "math": True,
                      "params": {"pairs": p, "locs": l, "maxstart": ms, "maxlen": ml}, "timeout_s": 900 if tier == "quick" else 3300})
@@ -317,11 +318,11 @@ def c19_jobs(tier):
     P = "concurrent"
     for ops in ([2, 3] if tier == "quick" else [2, 3, 4]):
         jobs.append({"pkgdir": P, "func": "VerifC19_PromiseSeq", "params": {"ops": ops}, "sched": "det"})
-    for (g, mode, pre) in ([(2, 0, 2), (3, 0, 1), (2, 1, 2), (3, 1, 1), (2, 2, 2), (3, 2, 1)] if tier == "quick" else
-                           [(2, 0, 3), (3, 0, 2), (4, 0, 1), (2, 1, 3), (3, 1, 2), (4, 1, 1), (2, 2, 3), (3, 2, 2)]):
+    for (g, mode, pre) in ([(2, 0, 2), (3, 0, 1), (2, 1, 2), (3, 1, 1), (2, 2, 2), (3, 2, 1), (2, 3, 2), (3, 3, 1)] if tier == "quick" else
+                           [(2, 0, 3), (3, 0, 2), (4, 0, 1), (2, 1, 3), (3, 1, 2), (4, 1, 1), (2, 2, 3), (3, 2, 2), (4, 2, 1), (2, 3, 3), (3, 3, 2), (4, 3, 1)]):
         jobs.append({"pkgdir": P, "func": "VerifC19_PromiseConc", "params": {"goroutines": g, "mode": mode}, "sched": "sym", "preempt": pre})
     procs = [(1, 0, 0, 0, 1), (1, 0, 2, 0, 2), (2, 0, 1, 0, 2), (2, 1, 2, 0, 1), (2, 0, 3, 1, 1)] if tier == "quick" else \
-            [(1, 0, 0, 0, 2), (1, 0, 2, 0, 3), (1, 1, 3, 1, 2), (2, 0, 1, 0, 3), (2, 1, 2, 0, 3), (2, 0, 3, 1, 2), (3, 0, 2, 0, 2), (2, 2, 4, 0, 1)]
+            [(1, 0, 0, 0, 2), (1, 0, 2, 0, 3), (1, 1, 3, 1, 2), (2, 0, 1, 0, 3), (2, 1, 2, 0, 2), (2, 0, 3, 1, 1), (3, 0, 2, 0, 1), (2, 2, 4, 0, 1)]  # one more pre-emption on the last four: > 3000 s each (measured)
     for (t, b, n, qb, pre) in procs:
         jobs.append({"pkgdir": P, "func": "VerifC19_Processor", "params": {"threads": t, "buffer": b, "nops": n, "qbuf": qb},
                      "sched": "sym", "preempt": pre, "timeout_s": 600 if tier == "quick" else 3000})
@@ -417,12 +418,14 @@ def c01_jobs(tier):
     if tier == "quick":
         shapes = [([0], 1, 0, 2), ([3], 2, 2, 4), ([2, 3], 1, 1, 3), ([], 1, 0, 1)]
     else:
-        shapes = [([0], 1, 0, 2), ([3], 2, 2, 4), ([2, 3], 1, 1, 3), ([], 1, 0, 1), ([5], 1, 0, 6), ([4, 0, 2], 1, 2, 3), ([8], 2, 3, 9)]
+        shapes = [([0], 1, 0, 2), ([3], 2, 2, 4), ([2, 3], 1, 1, 3), ([], 1, 0, 1), ([5], 1, 0, 6), ([4, 0, 2], 1, 2, 3), ([8], 2, 3, 9),
+                  ([12], 2, 3, 13), ([6, 5, 4], 2, 2, 5), ([3, 3, 3, 3], 1, 1, 2), ([10, 1], 3, 4, 4),
+                  ([40], 2, 3, 41), ([7, 9, 11], 3, 5, 12), ([25, 0, 25], 1, 0, 26)]
     for k, (recs, nm, ds, mw) in enumerate(shapes):
         jobs.append(_fa("VerifC01_Fasta", recs, nm, ds, mw, alphabet=k % 3))
     jobs.append(_fa("VerifC01_Fasta", [20], 1, 0, 21, small=1))
     for enc in range(5):
-        recs = [[2], [3], [1, 2], [0], [2]][enc] if tier == "quick" else [[2, 3], [3], [1, 2], [0, 4], [5]][enc]
+        recs = [[2], [3], [1, 2], [0], [2]][enc] if tier == "quick" else [[2, 3, 1], [16], [1, 2, 4], [0, 4, 9], [8, 8]][enc]
         p = {"records": len(recs), "name": 1 + enc % 2, "desc": (enc * 2) % 3, "encoding": enc}
         for i, n in enumerate(recs):
             p["len%d" % i] = n
